@@ -25,7 +25,7 @@ type Turnstile struct {
 	cond    *sync.Cond
 	holds   map[string]int // point -> number of arrivals still to be parked
 	parked  []*Parked
-	taken   []*Parked // handed out by WaitParked; still released by ReleaseAll
+	taken   []*Parked      // handed out by WaitParked; still released by ReleaseAll
 	Arrived map[string]int // point -> arrivals seen
 	Log     []string
 }
